@@ -27,6 +27,8 @@ def run_property(prop, tier, engine=None, write=True, quiet=False):
     t0 = time.time()
     seed = int(os.environ.get("VERIF_SEED", "0") or 0)
     R = rep.Report(prop)
+    if write:
+        rep.clean_replays(prop)
     try:
         mod = importlib.import_module(f"lokysa.props.{prop}")
         if engine is None:
